@@ -1,0 +1,397 @@
+//go:build verif
+
+// Error-flow contracts (C07): every function below carries the ghost protocol `errflow`
+// (a non-nil error returned by any callee must surface as a non-nil error result, or in the
+// declared error holder). Comments only.
+package boltz
+
+// An error holder latches: no code in scope resets ErrorHolderImpl.Err to nil once it is set.
+//@ monotone H.errorz.ErrorHolderImpl.Err.typ
+
+//@ func (*BaseStore).Create
+//@   props C07
+//@   errflow
+//@   nosafety
+//@   modifies *
+//@   lensures[holder] bucket != nil && bucket.Err != nil ==> result != nil
+
+//@ func (*BaseStore).DeleteById
+//@   props C07
+//@   errflow
+//@   nosafety
+//@   modifies *
+
+//@ func (*BaseStore).DeleteWhere
+//@   props C07
+//@   errflow
+//@   nosafety
+//@   modifies *
+
+//@ func (*BaseStore).Update
+//@   props C07
+//@   errflow
+//@   nosafety
+//@   modifies *
+//@   lensures[holder] bucket != nil && bucket.Err != nil ==> result != nil
+
+//@ func (*BaseStore).fireParentEvent
+//@   props C07
+//@   errflow
+//@   nosafety
+//@   modifies *
+
+//@ func (*BaseStore).processDeleteConstraints
+//@   props C07
+//@   errflow
+//@   nosafety
+//@   modifies *
+//@   lensures[holder] errHolder.Err != nil ==> result1 != nil
+
+//@ func (*ChildStoreUpdateHandler).HandleDelete
+//@   props C07
+//@   errflow
+//@   nosafety
+//@   modifies *
+
+//@ func (*ChildStoreUpdateHandler).HandleUpdate
+//@   props C07
+//@   errflow
+//@   nosafety
+//@   modifies *
+
+//@ func (*DbImpl).Batch
+//@   props C07
+//@   errflow
+//@   nosafety
+//@   modifies *
+
+//@ func (*DbImpl).Batch$1
+//@   props C07
+//@   errflow
+//@   nosafety
+//@   modifies *
+
+//@ func (*DbImpl).Update
+//@   props C07
+//@   errflow
+//@   nosafety
+//@   modifies *
+
+//@ func (*DbImpl).Update$1
+//@   props C07
+//@   errflow
+//@   nosafety
+//@   modifies *
+
+//@ func (*EntityChangeState).fireEvents
+//@   props C07
+//@   errflow
+//@   nosafety
+//@   modifies *
+
+//@ func (*EntityChangeState).init
+//@   props C07
+//@   errflow
+//@   nosafety
+//@   modifies *
+
+//@ func (*EntityChangeState).loadFinalState
+//@   props C07
+//@   errflow
+//@   nosafety
+//@   modifies *
+
+//@ func (*EntityChangeState).processPreCommit
+//@   props C07
+//@   errflow
+//@   nosafety
+//@   modifies *
+
+//@ func (*LinkedSetSymbol).AddCompoundLink
+//@   props C07
+//@   errflow
+//@   nosafety
+//@   modifies *
+
+//@ func (*LinkedSetSymbol).AddLink
+//@   props C07
+//@   errflow
+//@   nosafety
+//@   modifies *
+
+//@ func (*LinkedSetSymbol).AddLinkS
+//@   props C07
+//@   errflow
+//@   nosafety
+//@   modifies *
+
+//@ func (*LinkedSetSymbol).RemoveCompoundLink
+//@   props C07
+//@   errflow
+//@   nosafety
+//@   modifies *
+
+//@ func (*LinkedSetSymbol).RemoveLink
+//@   props C07
+//@   errflow
+//@   nosafety
+//@   modifies *
+
+//@ func (*RefCountedLinkedSetSymbol).decrementLinkCount
+//@   props C07
+//@   errflow
+//@   nosafety
+//@   modifies *
+
+//@ func (*RefCountedLinkedSetSymbol).incrementLinkCount
+//@   props C07
+//@   errflow
+//@   nosafety
+//@   modifies *
+
+//@ func (*RefCountedLinkedSetSymbol).setLinkCount
+//@   props C07
+//@   errflow
+//@   nosafety
+//@   modifies *
+
+//@ func (*RefCountedLinkedSetSymbol).unlink
+//@   props C07
+//@   errflow
+//@   nosafety
+//@   modifies *
+
+//@ func (*TypedBucket).CheckAndDeleteListEntry
+//@   props C07 C05
+//@   errflow
+//@   nosafety
+//@   assume bucket.ErrorHolderImpl != nil
+//@   modifies bucket.Err, bktHas[bucket.Bucket], bktVal[bucket.Bucket]
+//@   ensures[holder] bucket.Err != nil ==> result1 != nil
+
+//@ func (*TypedBucket).CheckAndSetListEntry
+//@   props C07 C05
+//@   errflow
+//@   nosafety
+//@   assume bucket.ErrorHolderImpl != nil
+//@   modifies bucket.Err, bktHas[bucket.Bucket], bktVal[bucket.Bucket]
+//@   ensures[holder] bucket.Err != nil ==> result1 != nil
+
+//@ func (*TypedBucket).Copy
+//@   props C07
+//@   errflow
+//@   nosafety
+//@   modifies *
+
+//@ func (*TypedBucket).DecrementLinkCount
+//@   props C07 C05
+//@   errflow
+//@   nosafety
+//@   assume bucket.ErrorHolderImpl != nil
+//@   modifies bucket.Err, bktHas[bucket.Bucket], bktVal[bucket.Bucket]
+//@   ensures[holder] bucket.Err != nil ==> result1 != nil
+
+//@ func (*TypedBucket).EmptyBucket
+//@   props C07
+//@   errflow
+//@   nosafety
+//@   modifies *
+
+//@ func (*TypedBucket).IncrementLinkCount
+//@   props C07 C05
+//@   errflow
+//@   nosafety
+//@   assume bucket.ErrorHolderImpl != nil
+//@   modifies bucket.Err, bktHas[bucket.Bucket], bktVal[bucket.Bucket]
+//@   ensures[holder] bucket.Err != nil ==> result1 != nil
+
+//@ func (*TypedBucket).SetLinkCount
+//@   props C07 C05
+//@   errflow
+//@   nosafety
+//@   assume bucket.ErrorHolderImpl != nil
+//@   modifies bucket.Err, bktHas[bucket.Bucket], bktVal[bucket.Bucket]
+//@   ensures[holder] bucket.Err != nil ==> result1 != nil
+
+//@ func (*TypedBucket).copyImpl
+//@   props C07
+//@   errflow
+//@   nosafety
+//@   modifies *
+
+//@ func (*entityFunctionListenerAdapter).ProcessPreCommit
+//@   props C07
+//@   errflow
+//@   nosafety
+//@   modifies *
+
+//@ func (*entityListenerAdapter).ProcessPreCommit
+//@   props C07
+//@   errflow
+//@   nosafety
+//@   modifies *
+
+//@ func (*linkCollectionImpl).AddLink
+//@   props C07
+//@   errflow
+//@   nosafety
+//@   modifies *
+
+//@ func (*linkCollectionImpl).AddLinks
+//@   props C07
+//@   errflow
+//@   nosafety
+//@   modifies *
+
+//@ func (*linkCollectionImpl).EntityDeleted
+//@   props C07
+//@   errflow
+//@   nosafety
+//@   modifies *
+
+//@ func (*linkCollectionImpl).RemoveLink
+//@   props C07
+//@   errflow
+//@   nosafety
+//@   modifies *
+
+//@ func (*linkCollectionImpl).RemoveLinks
+//@   props C07
+//@   errflow
+//@   nosafety
+//@   modifies *
+
+//@ func (*linkCollectionImpl).SetLinks
+//@   props C07
+//@   errflow
+//@   nosafety
+//@   modifies *
+
+//@ func (*linkCollectionImpl).checkAndLink
+//@   props C07
+//@   errflow
+//@   nosafety
+//@   modifies *
+
+//@ func (*linkCollectionImpl).checkAndUnlink
+//@   props C07
+//@   errflow
+//@   nosafety
+//@   modifies *
+
+//@ func (*linkCollectionImpl).link
+//@   props C07
+//@   errflow
+//@   nosafety
+//@   modifies *
+
+//@ func (*linkCollectionImpl).unlink
+//@   props C07
+//@   errflow
+//@   nosafety
+//@   modifies *
+
+//@ func (*mutateContext).runPreCommitActions
+//@   props C07
+//@   errflow
+//@   nosafety
+//@   modifies *
+
+//@ func (*rcLinkCollectionImpl).DecrementLinkCount
+//@   props C07
+//@   errflow
+//@   nosafety
+//@   modifies *
+
+//@ func (*rcLinkCollectionImpl).EntityDeleted
+//@   props C07
+//@   errflow
+//@   nosafety
+//@   modifies *
+
+//@ func (*rcLinkCollectionImpl).IncrementLinkCount
+//@   props C07
+//@   errflow
+//@   nosafety
+//@   modifies *
+
+//@ func (*rcLinkCollectionImpl).SetLinkCount
+//@   props C07
+//@   errflow
+//@   nosafety
+//@   modifies *
+
+//@ func (*rcLinkCollectionImpl).decrementLinkCount
+//@   props C07
+//@   errflow
+//@   nosafety
+//@   modifies *
+
+//@ func (*rcLinkCollectionImpl).incrementLinkCount
+//@   props C07
+//@   errflow
+//@   nosafety
+//@   modifies *
+
+//@ func (*rcLinkCollectionImpl).setLinkCount
+//@   props C07
+//@   errflow
+//@   nosafety
+//@   modifies *
+
+//@ func (*setIndex).deleteIndexKey
+//@   props C07
+//@   errflow
+//@   nosafety
+//@   modifies *
+
+//@ func (*systemEntityConstraint).checkOperation
+//@   props C07
+//@   errflow
+//@   nosafety
+//@   modifies *
+
+//@ func (*systemMutateContext).runPreCommitActions
+//@   props C07
+//@   errflow
+//@   nosafety
+//@   modifies *
+
+//@ func (*uniqueIndex).processIntegrityFix
+//@   props C07
+//@   errflow
+//@   nosafety
+//@   modifies *
+
+//@ func (*untypedEntityConstraintWrapper).ProcessPreCommit
+//@   props C07
+//@   errflow
+//@   nosafety
+//@   modifies *
+
+//@ func (*untypedEventListenerWrapper).ProcessPreCommit
+//@   props C07
+//@   errflow
+//@   nosafety
+//@   modifies *
+
+// Post-commit work may only run after the transaction has committed: the ghost flag `committed`
+// is granted by nobody inside the transaction, so a direct call of one of these functions from
+// transaction code fails its precondition. They are reached only as callbacks handed to
+// bbolt's Tx.OnCommit (trusted: bbolt runs them after a successful commit, once each).
+//@ ghost committed : Bool
+//@ func (*EntityChangeState).processPostCommit
+//@   props C07 C08
+//@   nosafety
+//@   requires[after-commit] committed
+//@   modifies *
+//@ func (*mutateContext).handleCommit
+//@   props C07 C08
+//@   nosafety
+//@   requires[after-commit] committed
+//@   modifies *
+//@ func (*DbImpl).Update$1$1
+//@   props C07 C08
+//@   nosafety
+//@   requires[after-commit] committed
+//@   modifies *
